@@ -358,6 +358,10 @@ func claimDefects() []claimDefect {
 		d("aud-case", true, func(m map[string]any) { m["aud"] = []string{strings.ToUpper(audience)} }),
 		d("iss-wrong", true, func(m map[string]any) { m["iss"] = "mallory" }),
 		d("iss-missing", true, func(m map[string]any) { delete(m, "iss") }),
+		d("iss-uppercase", true, func(m map[string]any) { m["iss"] = strings.ToUpper(m["iss"].(string)) }),
+		d("iss-suffix", true, func(m map[string]any) { m["iss"] = m["iss"].(string) + "x" }),
+		d("iss-prefix-of-name", true, func(m map[string]any) { m["iss"] = m["iss"].(string)[:3] }),
+		d("iss-trailing-space", true, func(m map[string]any) { m["iss"] = m["iss"].(string) + " " }),
 		d("iss-other-authorized-user", true, func(m map[string]any) { m["iss"] = "bob-ed25519" }),
 		d("sub-missing", true, func(m map[string]any) { delete(m, "sub") }),
 		d("sub-empty", true, func(m map[string]any) { m["sub"] = "" }),
